@@ -1162,6 +1162,28 @@ def check_translation(ctx, rep, rng, tier):
                               {"kind": "translation", "fn": "_get_unix_extension", "attributes": v}, concrete=False,
                               match_keys={"kind": "translation", "fn": "_get_unix_extension"})
                 return
+    # is_directory also reads the "emptystream" / "emptyfile" entries of the file info (F22 repair): absent / False / True each
+    flagged = vals[:60] + [rng.choice(vals) for _ in range(300 if tier == "quick" else 5000)]
+    for v in flagged:
+        for es in (None, False, True):
+            for ef in (None, False, True):
+                info = {"attributes": v}
+                if es is not None:
+                    info["emptystream"] = es
+                if ef is not None:
+                    info["emptyfile"] = ef
+                af = ArchiveFile(0, info)
+                want = py(lambda: af.is_directory)
+                got = canon(model.call("gen_is_directory", [[] if v is None else [v], [] if es is None else [es],
+                                                            [] if ef is None else [ef]]), "bool")
+                cnt += 1
+                rep.dist("translation_is_directory_flags", "emptystream=%r emptyfile=%r -> %r" % (es, ef, want[1] if want[0] == 0 else "raises"))
+                if got[0] != want[0] or (want[0] == 0 and got[1] != want[1]):
+                    rep.violation("the function translated from ArchiveFile.is_directory disagrees with the Python on attributes %r, "
+                                  "emptystream %r, emptyfile %r: generated %r, Python %r" % (v, es, ef, got, want),
+                                  {"kind": "translation", "fn": "is_directory", "attributes": v, "emptystream": es, "emptyfile": ef},
+                                  concrete=False, match_keys={"kind": "translation", "fn": "is_directory"})
+                    return
     for v in vals[:400]:
         for bit in (0, 1, 0x10, 0x410, 0x8000, 0xFFFF0000, rng.getrandbits(32)):
             af = ArchiveFile(0, {"attributes": v})
